@@ -106,6 +106,24 @@ def run_harnesses(repo, work, harnesses, timeout=1500, extra_flags=()):
     return results
 
 
+_harness_text = None
+
+
+def _only_harness_asserts(failed):
+    """True iff every failed check is an `assert!(expr)` written in one of the harness files (kani/*.rs)"""
+    global _harness_text
+    if _harness_text is None:
+        import glob
+        _harness_text = re.sub(r"\s+", "", "".join(open(f).read() for f in glob.glob(os.path.join(VERIF, "kani", "*.rs"))))
+    if not failed:
+        return False
+    for f in failed:
+        m = re.match(r"^assertion failed: (.+)$", f.strip())
+        if not m or re.sub(r"\s+", "", m.group(1)) not in _harness_text:
+            return False
+    return True
+
+
 def run_for_property(repo, work, pid, prop, tier, seed, out):
     """runs the Kani harnesses registered for the property (quick: prop['kani_quick'], thorough: + prop['kani_thorough'])"""
     hs = list(prop.get("kani_quick", []))
@@ -126,6 +144,10 @@ def run_for_property(repo, work, pid, prop, tier, seed, out):
             if r.get("covers") and r["covers"][0] < r["covers"][1]:
                 out.undecided.append("Kani harness %s: %d of %d cover properties unsatisfied (vacuity guard)" % (h, r["covers"][1] - r["covers"][0], r["covers"][1]))
             n_ok += 1
+        elif r["status"] == "FAILED" and h in prop.get("kani_functional_harnesses", []) and _only_harness_asserts(r["failed_checks"]):
+            # the harness also states functional by-products (e.g. header fields in RFC order); when only those fail and no
+            # panic / overflow / bounds check of the real code does, this is not a verdict on a no-panic property
+            out.undecided.append("Kani harness %s: only functional by-product assertions of the harness failed (%s); no panic, overflow or bounds check failed - not a verdict on %s" % (h, r["failed_checks"][0][:100], pid))
         elif r["status"] == "FAILED":
             name = "kani:%s::%s" % (h, (r["failed_checks"] or ["?"])[0][:120])
             import hashlib
